@@ -46,7 +46,7 @@ func VerifC04Templates() {
 	}
 	h := nd.From("h", nd.Choose("hl", 1, nd.Param("H", 2)), "aA'\" .\\$#|-")
 	var s string
-	switch nd.Choose("tpl", 0, 9) {
+	switch nd.Choose("tpl", 0, 11) {
 	case 0:
 		s = "a: " + h + "\n"
 	case 1:
@@ -54,7 +54,16 @@ func VerifC04Templates() {
 	case 2:
 		s = kwc("kw", "layers") + ": {x: {b}}\na: " + h + "\n"
 	case 3:
+		if nd.Known("C04-board-moved-behind-later-statements") {
+			// recorded finding: the formatter moves scenarios/steps blocks to the end of the
+			// file, but a scenario inherits only what is declared before it
+			nd.Assume(false)
+		}
 		s = "a: " + h + "\nscenarios: {x: {b: " + h + "}}\nc\n"
+	case 10: // a layers block in the middle (layers inherit nothing, moving it is harmless)
+		s = "a: " + h + "\nlayers: {x: {b: " + h + "}}\nc\n"
+	case 11: // scenarios and steps already last
+		s = "a: " + h + "\nc\nscenarios: {x: {b: " + h + "}}\nsteps: {y: {d}; z: {a: " + h + "}}\n"
 	case 4:
 		s = "a: \"" + h + "\"\n"
 	case 5:
